@@ -173,7 +173,7 @@ class StreamResult:
 
 def run_driver(args, cases_path, out_path):
     with open(cases_path) as fin, open(out_path, "w") as fout:
-        p = subprocess.run([str(DRIVER)] + args, stdin=fin, stdout=fout, stderr=subprocess.PIPE, text=True, timeout=3000)
+        p = subprocess.run([str(DRIVER)] + args, stdin=fin, stdout=fout, stderr=subprocess.PIPE, text=True, timeout=900)
     return p.returncode == 0, p.stderr
 
 
